@@ -793,6 +793,10 @@ pub fn benjamini_hochberg(p_values: &[f64], q: f64, family_size: usize) -> Vec<b
     keep
 }
 
+// Verification hook: module-private accessors for harnesses, kept outside the repository.
+#[cfg(any(kani, folo_verif))]
+include!(concat!(env!("FOLO_VERIF_DIR"), "/kani/cbh_stats/stats_hooks.rs"));
+
 #[cfg(test)]
 #[cfg_attr(coverage_nightly, coverage(off))]
 mod tests {
